@@ -971,6 +971,64 @@ theorem multi_presentation_complete_executable (N : ℕ)
   | err => rw [hp] at r1; exact absurd r1 (by simp [ORel])
   | panic => rw [hp] at r1; exact absurd r1 (by simp [ORel])
 
+
+/-- **a presentation that also carries a non-revocation part is complete in the executable
+group**, given the pairing side: `presentation_with_nonrevoc_complete` transferred along
+`zn_refines_units` (`proveSingleWith` — what the driver's `prove_nr` runs — and `verify`, both
+with integers modulo `N`). -/
+theorem presentation_with_nonrevoc_complete_executable (N : ℕ) (hN : 1 < N)
+    (H : List ByteArray → ℤ) (hH : ∀ bs, 0 ≤ H bs ∧ H bs < 2 ^ 256)
+    (m : OvfMode) (pk : PubKey ℤ) (sig : Signature ℤ) (pk' : PubKey (Zn.U N))
+    (sig' : Signature (Zn.U N)) (hpk : PKRel (Zn.Rel N) pk pk') (hs : SigRel (Zn.Rel N) sig sig')
+    (schema nonSchema : List String)
+    (req : SubProofRequest) (pts : List (Pred × NeTape)) (hreq : req.predicates = pts.map (·.1))
+    (common : List (String × ℤ)) (rf : String → Zn.U N) (val : String → ℤ) (vals : Values)
+    (m2Tilde : ℤ) (tp : EqTape) (nonce : ByteArray) (nrT nrC : List ByteArray) (hnr : nrT ≠ [])
+    (hr : Maps pk'.r (unrevealedOf schema nonSchema req.revealed ++ req.revealed) rf)
+    (hv : Maps vals (unrevealedOf schema nonSchema req.revealed ++ req.revealed) val)
+    (hsig : SigValid pk' sig' rf val (unrevealedOf schema nonSchema req.revealed ++ req.revealed))
+    (he : 2 ^ 596 ≤ sig.e ∧ sig.e < 2 ^ 596 + 2 ^ 119) (ht : 0 ≤ tp.eTilde ∧ tp.eTilde < 2 ^ 456)
+    (hpreds : ∀ pt ∈ pts, PredOk (unrevealedOf schema nonSchema req.revealed) val pt)
+    (hcommon : ∀ a ∈ keys common, a ∈ unrevealedOf schema nonSchema req.revealed) :
+    ∃ prf sp, proveSingleWith (Zn.znOps N) H m Drv.fourSq common pk sig
+        (unrevealedOf schema nonSchema req.revealed) req.revealed pts vals m2Tilde tp nonce nrT nrC
+          = .ok prf ∧ prf.proofs = [sp] ∧ sp.hasNonRevoc = true ∧
+      verify H m (keys common)
+        [⟨Zn.znOps N, pk, schema, nonSchema, req, true, true, true⟩]
+        { prf with proofs := [{ sp with nrTaus := .ok (nrT.map Item.bytes) }] } nonce = .ok true := by
+  have ho := Zn.znOps_refines hN
+  rw [hs.e] at he
+  obtain ⟨prf', sp', h1, h2, h3, h4⟩ := presentation_with_nonrevoc_complete (Zn.encU N) H hH m pk' sig'
+    schema nonSchema req pts hreq common rf val vals m2Tilde tp nonce nrT nrC hnr hr hv hsig he ht
+    hpreds hcommon
+  have r1 := proveSingleWith_rel ho H m Drv.fourSq common hpk hs
+    (unrevealedOf schema nonSchema req.revealed) req.revealed pts vals m2Tilde tp nonce nrT nrC
+  rw [h1] at r1
+  cases hp : proveSingleWith (Zn.znOps N) H m Drv.fourSq common pk sig
+      (unrevealedOf schema nonSchema req.revealed) req.revealed pts vals m2Tilde tp nonce nrT nrC with
+  | ok prf =>
+    rw [hp] at r1
+    have hprf : ProofRel (Zn.Rel N) prf prf' := r1
+    have hps := hprf.proofs
+    rw [h2] at hps
+    generalize hq : prf.proofs = ps at hps
+    cases hps with
+    | @cons sp _ l _ hsp hl =>
+      cases hl
+      refine ⟨prf, sp, rfl, hq, by rw [hsp.hasNonRevoc]; exact h3, ?_⟩
+      have hvc : List.Forall₂ (VerCredRel (Zn.Rel N))
+          [(⟨Zn.znOps N, pk, schema, nonSchema, req, true, true, true⟩ : VerCred ℤ)]
+          [(⟨addOps (Zn.encU N), pk', schema, nonSchema, req, true, true, true⟩ : VerCred (Zn.U N))] :=
+        List.Forall₂.cons ⟨ho, hpk, rfl, rfl, rfl, rfl, rfl, rfl⟩ List.Forall₂.nil
+      have hp2 : ProofRel (Zn.Rel N)
+          { prf with proofs := [{ sp with nrTaus := .ok (nrT.map Item.bytes) }] }
+          { prf' with proofs := [{ sp' with nrTaus := .ok (nrT.map Item.bytes) }] } :=
+        ⟨List.Forall₂.cons ⟨hsp.eq, hsp.ne, hsp.hasNonRevoc, rfl⟩ List.Forall₂.nil, hprf.cHash, hprf.cList⟩
+      rw [verify_rel H m (keys common) hvc hp2 nonce]
+      exact h4
+  | err => rw [hp] at r1; exact absurd r1 (by simp [ORel])
+  | panic => rw [hp] at r1; exact absurd r1 (by simp [ORel])
+
 end ZnRefinement
 
 end CL.C01
